@@ -110,10 +110,57 @@ theorem version_absent (debug : Bool) (h : Run.Outcome) (render : Run.Exc → Bo
     Run.run debug (.ok ()) [versionListener false] h render = Run.run debug (.ok ()) [] h render := by
   simp [Run.run, Run.attempt, Run.handle, Run.doHandle, Run.dispatchPre, versionListener]
 
+/-! Hypothesis-free forms of `io_after_dashes` / `help_after_dashes`: `pre` there is any list
+without `--`; the option tokens of ANY token list are such a list, and every token list is its
+option tokens followed (if at all) by `--` and a tail (`Props.C08.option_tokens_split`). -/
+
+/-- **Only the option tokens matter**, for every token list: the I/O configuration and the help
+switch of a line are those of its tokens before the first `--`. -/
+theorem io_only_option_tokens (ts : List Str) (debug : Bool) :
+    createIO ts debug = createIO (optionTokens ts) debug ∧ helpSwitch ts = helpSwitch (optionTokens ts) := by
+  have : hasTok ts = hasTok (optionTokens ts) := by
+    funext t
+    simp only [hasTok, Props.C08.option_tokens_idem]
+  exact ⟨io_depends_on_membership ts _ debug (fun t => congrFun this t), by simp only [helpSwitch, this]⟩
+
+/-- **Whatever follows the first `--` has no effect**, for every token list and every tail. -/
+theorem io_tail_irrelevant (ts tail : List Str) (debug : Bool) :
+    createIO (optionTokens ts ++ ['-', '-'] :: tail) debug = createIO ts debug ∧
+    helpSwitch (optionTokens ts ++ ['-', '-'] :: tail) = helpSwitch ts := by
+  have hn := (Props.C08.option_tokens_prefix ts).1
+  rw [io_after_dashes _ tail debug hn, help_after_dashes _ tail hn]
+  exact ⟨(io_only_option_tokens ts debug).1.symm, (io_only_option_tokens ts debug).2.symm⟩
+
 /-! Non-vacuity -/
 example : createIO ["cmd".toList, "-q".toList, "-vv".toList, "--".toList, "--no-ansi".toList] false
     = { ansi := .auto, verbosity := 2, quiet := true, interactive := true } := by decide
 example : helpSwitch ["cmd".toList, "--".toList, "-h".toList] = false := by decide
 example : helpSwitch ["cmd".toList, "-h".toList] = true := by decide
+
+/-! every theorem with hypotheses, applied to a concrete instance (all hypotheses discharged) -/
+
+example : createIO ["cmd".toList, "-q".toList, "-vv".toList, "--".toList, "x".toList] false =
+    createIO ["-vv".toList, "cmd".toList, "-q".toList] false :=
+  io_perm_invariant _ _ false (List.isPerm_iff.1 (by decide))
+
+example : createIO (["cmd".toList, "-n".toList] ++ ['-', '-'] :: ["-q".toList, "--no-ansi".toList]) true =
+    createIO ["cmd".toList, "-n".toList] true :=
+  io_after_dashes _ _ true (by decide)
+
+example : helpSwitch (["cmd".toList] ++ ['-', '-'] :: ["-h".toList]) = helpSwitch ["cmd".toList] :=
+  help_after_dashes _ _ (by decide)
+
+/-- what `-v` lets through, `-vvv` lets through as well (a VERBOSE-flagged write) -/
+example : Gen.mayWrite false (createIO ["-vvv".toList] false).verbosity (some Gen.IOFlags.VERBOSE) = true :=
+  verbosity_monotone_output ["-v".toList] ["-vvv".toList] (some Gen.IOFlags.VERBOSE) (by decide) (by decide)
+
+example : ∀ f ∈ [none, some Gen.IOFlags.DEBUG],
+    Gen.mayWrite (createIO ["cmd".toList, "-q".toList, "-vvv".toList] false).quiet
+      (createIO ["cmd".toList, "-q".toList, "-vvv".toList] false).verbosity f = false :=
+  quiet_silences_run _ false (by decide) _
+
+example : createIO ["-q".toList, "--".toList, "-vvv".toList] false = createIO ["-q".toList] false :=
+  (io_only_option_tokens _ false).1
+
 
 end Clikit.Props.C09
